@@ -374,7 +374,7 @@ let run_spec line =
       | "indented" -> BIndented (lines ())
       | "quote" -> BQuote (group inls)
       | "list" -> let o = next () = "o" in let l = next () = "l" in
-        BList (o, l, group (fun () -> let t = inls () in let sub = group inls in (t, sub)))
+        BList (o, l, group (fun () -> let t = inls () in let sl = next () = "l" in let sub = group inls in (t, (sl, sub))))
       | "table" -> let al = next () in
         let aligns = List.init (String.length al) (fun i -> match al.[i] with 'l' -> ALeft | 'c' -> ACenter | 'r' -> ARight | _ -> ANone) in
         let header = group cell in let rows = group (fun () -> group cell) in BTable (aligns, header, rows)
